@@ -1,8 +1,10 @@
 /-
   C15 — tree flatten/rebuild are inverse; tree_update is a non-destructive deep merge.
   Property theorems only (helper lemmas: PygProofs/Lemmas/TreeLemmas.lean).
-  The model is purely functional: "neither t nor u is modified" cannot fail in it; on the
-  implementation it is observed with deep snapshots of both operands (finding F7, fixed).
+  The value model (PygModel/Tree.lean) is purely functional; "neither t nor u is modified" is stated on the HEAP model
+  (PygModel/TreeHeap.lean: dict nodes with real aliasing; `update_frame`, `update_result_fresh`, `table_to_tree_frame`), where it is
+  not true by construction (`*_shallow_false` are the pre-fix codes); on the implementation it is observed with deep snapshots of
+  both operands and by writing into the result afterwards (findings F7, C15-T1, fixed).
 -/
 import PygModel.Tree
 import PygProofs.Lemmas.TreeLemmas
@@ -558,5 +560,87 @@ theorem tree_table_inverse_empty_branch_false :
     toTree P (toTable P (.dict [("x", .dict [])])) = .ok [] := rfl
 
 end table
+
+/-! ## Round h2 (review s2): result freshness, `table_to_tree` on a base tree -/
+
+section round_h2
+open Pyg.TreeTable
+
+/-- FRESHNESS of the result of `tree_update` (review s2: proved in the lemmas, not stated): the result is a new node and every
+dict node allocated by the call — the result and everything reachable from it — only points to nodes allocated by the call: the
+result shares NO dict node with `t` or `u`, at any depth -/
+theorem update_result_fresh (f : Nat) (m : Mem) (t u : Nat) (ig : List Val) (m' : Mem) (r : Nat)
+    (h : treeUpdateH f m t u ig = .ok (m', r)) :
+    r = m.heap.length ∧
+    ∀ x, m.heap.length ≤ x → ∀ k b, lookup k (node m' x) = some (.ptr b) → m.heap.length ≤ b := by
+  simp only [treeUpdateH] at h
+  split at h
+  · cases h
+  · next its _ =>
+    obtain ⟨hr, _, hc⟩ := itemsToTreeH_safe f m its t ig m' r h
+    exact ⟨hr, hc⟩
+
+/-- ... hence an item assignment into the result (or into any node reachable from it: all of them are new) AFTER the call does not
+change what `t`, `u` or any other tree that existed before the call read back as -/
+theorem update_result_write_safe (f : Nat) (m : Mem) (t u : Nat) (ig : List Val) (m' : Mem) (r : Nat)
+    (h : treeUpdateH f m t u ig = .ok (m', r)) (a : Nat) (ha : m.heap.length ≤ a) (k : String) (x : Ref)
+    (g : Nat) (y : Ref) (v : Val) (hy : readH m.heap g y = some v) : readH (store m' a k x).heap g y = some v := by
+  simp only [treeUpdateH] at h
+  split at h
+  · cases h
+  · next its _ =>
+    obtain ⟨_, hs, _⟩ := itemsToTreeH_safe f m its t ig m' r h
+    exact (hs.trans (Safe_store _ m' a k x ha)).readH (Nat.le_refl _) g y v hy
+
+/-- `table_to_tree(tree, pattern, rows, base = type(tree))` on the heap (repaired code, the sibling of `update_frame`): every item
+assignment targets a node allocated during the call, every node that existed before — the caller's tree at any depth — is unchanged,
+the result is a new node sharing no dict node with the caller's tree -/
+theorem table_to_tree_frame (f : Nat) (m : Mem) (its : List (Path × Val)) (t : Nat) (m' : Mem) (r : Nat)
+    (h : tableToTreeH f m its t = .ok (m', r)) :
+    (∃ writes, m'.log = writes ++ m.log ∧ ∀ a ∈ writes, m.heap.length ≤ a) ∧
+    (∀ a, a < m.heap.length → m'.heap[a]? = m.heap[a]?) ∧ r = m.heap.length ∧
+    (∀ x, m.heap.length ≤ x → ∀ k b, lookup k (node m' x) = some (.ptr b) → m.heap.length ≤ b) ∧
+    ∀ g y v, readH m.heap g y = some v → readH m'.heap g y = some v := by
+  obtain ⟨hr, hs, hc⟩ := tableToTreeH_safe f m its t m' r h
+  exact ⟨hs.log, hs.same, hr, hc, fun g y v hy => hs.readH (Nat.le_refl _) g y v hy⟩
+
+/-- the code before the fix (`copy(tree)`, one level) violates it: `t = {'m': {'TY': {'w': 1}}}`,
+`table_to_tree(t, 'm/%k/w/%w', [dict(k = 'TY', w = 9)])` writes `w = 9` into the node of `t['m']['TY']` -/
+private def mT : Mem := ⟨[[("w", .val (.cell (.int 1)))], [("TY", .ptr 0)], [("m", .ptr 1)]], []⟩
+
+theorem table_to_tree_frame_shallow_false :
+    ∃ m', tableToTreeShallow mT [(["m", "TY", "w"], .cell (.int 9))] 2 = .ok (m', 3) ∧ m'.log = [0] ∧
+      readH mT.heap 4 (.ptr 2) = some (.dict [("m", .dict [("TY", .dict [("w", .cell (.int 1))])])]) ∧
+      readH m'.heap 4 (.ptr 2) = some (.dict [("m", .dict [("TY", .dict [("w", .cell (.int 9))])])]) :=
+  ⟨_, rfl, rfl, rfl, rfl⟩
+
+/-- the repaired code on the same heap writes only new nodes and leaves the caller's tree as it was -/
+example : ∃ m', tableToTreeH 4 mT [(["m", "TY", "w"], .cell (.int 9))] 2 = .ok (m', 3) ∧ (∀ a ∈ m'.log, 3 ≤ a) ∧
+    readH m'.heap 4 (.ptr 2) = some (.dict [("m", .dict [("TY", .dict [("w", .cell (.int 1))])])]) ∧
+    readH m'.heap 4 (.ptr 3) = some (.dict [("m", .dict [("TY", .dict [("w", .cell (.int 9))])])]) :=
+  ⟨_, rfl, by decide, rfl, rfl⟩
+
+/-- `table_to_tree(None, …)` is the base-tree form on the empty tree -/
+theorem toTree_eq_toTreeOn (P : List Seg) (rows : List Row) : toTree P rows = toTreeOn [] P rows := rfl
+
+/-- `table_to_tree(tree, P, rows)` as a VALUE: when the rows bind the pattern (items `its`, none with an empty path — patterns of
+at least two segments) it is the sequence of path writes of the items into the base tree; with pairwise branching paths every
+item is read back at its path, and every leaf of the base tree whose path branches off all written paths is still there -/
+theorem table_to_tree_on_base (base : List (String × Val)) (P : List Seg) (rows : List Row) (its : List (Path × Val))
+    (hits : rows.mapM (rowItem P) = .ok its) (hne : ∀ pv ∈ its, pv.1 ≠ []) :
+    toTreeOn base P rows = .ok (buildOn base its) ∧
+    ((its.map (·.1)).Pairwise Branch → ∀ pv ∈ its, getItem (.dict (buildOn base its)) pv.1 = .ok pv.2) ∧
+    ∀ p w, (∀ pv ∈ its, Branch pv.1 p) → getItem (.dict base) p = .ok w → getItem (.dict (buildOn base its)) p = .ok w :=
+  ⟨toTree_eq_buildOn P rows its base hits hne, fun hp => buildOn_reads_back its base hp hne,
+   fun p w hb hg => buildOn_keeps p w its base hb hg⟩
+
+/-- why `update_is_merge` asks for `noEmpty u`: an empty branch of `u` has no item, so `tree_update` ignores it while the
+recursive merge would hang it in -/
+theorem update_is_merge_empty_branch_false :
+    update (.dict [("a", .cell (.int 1))]) (.dict [("a", .dict [])]) [] = .ok (.dict [("a", .cell (.int 1))]) ∧
+    merge [] (.dict [("a", .cell (.int 1))]) (.dict [("a", .dict [])]) = .dict [("a", .dict [])] :=
+  ⟨rfl, by decide⟩
+
+end round_h2
 
 end Pyg.Props.C15
